@@ -135,6 +135,7 @@ class C19(E1Prop):
     def begin(self, w, rng):
         super().begin(w, rng)
         self.nprobes = 0
+        self.nfaulted = 0
         # events on commits of source / integration / queue tips
         gen = self.gen
         orig = gen.next
@@ -154,6 +155,27 @@ class C19(E1Prop):
     def next_op(self, w, rng, step, nsteps):
         tier = getattr(self, 'tier', 'quick')
         maxp = 2 if tier == 'quick' else 6
+        if step == 0 and rng.random() < 0.3:
+            # story: one multi-target PR is driven up to the job that lands
+            # it; that job is the one that meets the fault
+            dests = ops.dest_branches(w.cfg)
+            d = rng.choice(dests[:max(1, len(dests) - 1)])
+            seq = [{'op': 'open_pr', 'actor': 'alice',
+                    'src': 'bugfix/TEST-931', 'dst': d, 'kind': 'new'},
+                   {'op': 'eval', 'p': 0},
+                   {'op': 'ci_green_all', 'which': ['src', 'w']}]
+            if w.use_queue and not w.cfg.get('skip_queue'):
+                seq += [{'op': 'eval', 'p': 0},
+                        {'op': 'ci_green_all', 'which': ['q']}]
+            seq.append({'op': 'fdeliver', 'i': -1,
+                        'pick': rng.randrange(10 ** 9),
+                        'fk': rng.choice(['kill', 'partition', 'hostfail']),
+                        'wipe': rng.random() < 0.3})
+            seq.append({'op': 'deliver_all'})
+            for o in seq:
+                o['dt'] = rng.choice([1, 5, 30])
+            self.script = seq
+            self.nfaulted += 1
         if getattr(self, 'script', None):
             return self.script.pop(0)
         if step >= 4 and rng.random() < 0.08:
@@ -178,9 +200,94 @@ class C19(E1Prop):
                 self.script = [probe]
                 return {'op': 'ci_green_all', 'dt': 1}
             return probe
-        return self.gen.next(w)
+        op = self.gen.next(w)
+        if op and op['op'] == 'deliver' and \
+                self.nfaulted < (2 if tier == 'quick' else 5) and \
+                rng.random() < 0.2:
+            # the job dies / loses the network / is refused a ref at one of
+            # its remote-mutating operations; a fresh instance gets the
+            # event again
+            self.nfaulted += 1
+            op = dict(op, op='fdeliver', pick=rng.randrange(10 ** 9),
+                      fk=rng.choice(['kill', 'kill', 'partition',
+                                     'hostfail']),
+                      wipe=rng.random() < 0.3)
+        return op
+
+    def final(self, w, rng, replay=False):
+        """Drive to quiescence, faults off: a merged pull request keeps no
+        integration branch."""
+        if replay:
+            return []
+        op = {'op': 'settle_and_check', 'dt': 1}
+        w.final_sink.append(op)
+        self.apply(w, op)
+        return []
+
+    def settle_and_check(self, w, op):
+        w.stats['ops'] += 1
+        w.on_job_done = lambda rec: self.check_job(w, rec)
+        recs, ok = ops.settle(w, 14)
+        w.on_job_done = None
+        refs = w.refs()
+        table = w.pr_table()
+        for p in table:
+            if p['author'] == ROBOT or p['state'] != 'MERGED':
+                continue
+            if any(q['id'] != p['id'] and q['src'] == p['src']
+                   for q in table):
+                continue
+            left = sorted(r for r in refs if r.startswith('w/') and
+                          r.endswith('/' + p['src']) and
+                          W_RE.match(r) and W_RE.match(r).group(2) ==
+                          p['src'])
+            if left:
+                raise Violation(
+                    'C19', 'C19:merged-pr-keeps-integration-branches',
+                    'PR #%d (%s) is merged, every event was delivered and '
+                    'every build is green, yet %s remain on the remote' % (
+                        p['id'], p['src'], left),
+                    {'statuses': [(r['job'], r['status'])
+                                  for r in recs][-12:]})
+            w.probe('merged-pr-clean-at-the-end')
+        w.step_digest(op, [])
+        return []
+
+    def fdeliver(self, w, op):
+        w.stats['ops'] += 1
+        w.clock.advance(op.get('dt', 1))
+        if not w.events:
+            w.step_digest(op, [])
+            return []
+        ev = w.events.pop(op.get('i', 0) % len(w.events))
+        if 'plan' not in op:
+            def clean(w_):
+                recs = w_.deliver(dict(ev))
+                return [m['kind'] for m in recs[0]['mut']] if recs else []
+            mut = w.fork_variant(clean)
+            if not mut:
+                op['plan'] = None
+            elif op['fk'] == 'hostfail':
+                hosts = [i for i, k in enumerate(mut) if k == 'host']
+                op['plan'] = {'kind': 'partition', 'when': 'before',
+                              'at': hosts[op['pick'] % len(hosts)]} \
+                    if hosts else None
+            else:
+                op['plan'] = {'kind': op['fk'], 'when': 'before',
+                              'at': op['pick'] % len(mut)}
+        recs = list(w.deliver(dict(ev), plan=op['plan'] and
+                              dict(op['plan'])) or [])
+        if op['plan']:
+            w.restart(wipe=bool(op.get('wipe')))
+            recs += list(w.deliver(dict(ev)) or [])
+        w.step_digest(op, recs)
+        return recs
 
     def apply(self, w, op):
+        if op['op'] == 'fdeliver':
+            return self.fdeliver(w, op)
+        if op['op'] == 'settle_and_check':
+            return self.settle_and_check(w, op)
         if op['op'] != 'probe':
             return ops.apply_op(w, op)
         w.stats['ops'] += 1
